@@ -304,8 +304,75 @@ def check(ctx):
         ok = gsa.impossible(PV, e, [(SAME, False)]) and gsa.impossible(PV, e, [(NONEMPTY, False)]) and any(re.search(SAME, a_) for a_ in gsa.atoms(e.cond))
         r4.check(ok, 'first parameter must be the instance type', mt.rel, e.line,
                  'VFunction.from_callback(%s) is reached when %s: the callback\'s first parameter type is not required to be the class itself' % (cb, e.when()[-300:]), detail=e.when()[-300:])
+    for e in vc:
+        cb = e.args[1] if len(e.args) > 1 else '?'
+        m_ = re.match(r'^(\w+)\.anonymous_node$', cb) or re.search(r'lookup_typenode\((\w+)\.type\)$', cb)
+        r4.check(bool(m_) and e.args[0] == m_.group(1) + '.name', 'virtual method is named after the class-struct member: %s' % e.args[0][:60], mt.rel, e.line,
+                 'VFunction.from_callback(%s, %s): the virtual method is not named after the structure member that holds the function pointer (the member of a typed '
+                 'field is called differently from its callback type), so vfunc names, invoker pairing and ::vfunc doc blocks no longer match' % (e.args[0][:80], cb[:60]),
+                 detail=e.args[:2])
     r4.check(all(any(re.search(r'\.parameters\[0\]\.type == %s\.create_type\(\)$' % re.escape(nodep), a_) for a_ in gsa.atoms(e.cond)) for e in vc), 'compared types are the class and the first parameter', mt.rel,
              pv.lineno, 'conditions: %s' % [e.when()[-200:] for e in vc])
+
+    # ------------------------------------------------------------------ R5 error quark -> enumeration keys
+    r5 = ctx.rule('R5', 'name-derived keys under which enumerations/types are looked up by un-prefixed C symbol are computed by an un-prefixed '
+                  'underscoring (no substitution anchored at the first character)', floor=2)
+    unprefixed_keys_rule(ctx, r5)
+
+
+def prefix_neutral(ctx, mod, fname):
+    """the module function only applies regex substitutions that are not anchored at the start of the string
+    (utils.to_underscores splits a leading pair of capitals: 'DBusError' -> 'd_bus_error')"""
+    import re._parser as sre
+    f = mod.functions.get(fname)
+    if f is None:
+        return None
+    n_sub = 0
+    for c in P.calls_in(f):
+        if isinstance(c.func, ast.Attribute) and c.func.attr in ('sub', 'subn'):
+            pat = None
+            tgt = c.func.value
+            if isinstance(tgt, ast.Name) and tgt.id in mod.assigns:
+                v = mod.assigns[tgt.id][0]
+                if isinstance(v, ast.Call) and P.call_name(v) == 're.compile' and v.args:
+                    pat = ctx.py.try_fold(v.args[0], mod)
+            elif isinstance(tgt, ast.Name) and tgt.id == 're' and c.args:
+                pat = ctx.py.try_fold(c.args[0], mod)
+            if not isinstance(pat, str):
+                return None
+            n_sub += 1
+            parsed = sre.parse(pat)
+            if len(parsed) and parsed[0][0] == sre.AT and parsed[0][1] in (sre.AT_BEGINNING, sre.AT_BEGINNING_STRING):
+                return False
+    return True if n_sub else None
+
+
+def unprefixed_keys_rule(ctx, rule):
+    py = ctx.py
+    mt = py.mod('maintransformer')
+    n = 0
+    for qual in ('MainTransformer._pair_quarks_with_enums', 'MainTransformer.transform'):
+        S = gsa.summarise(ctx, 'maintransformer', qual, opaque=('_pair_function', '_pair_class_virtuals', '_pass_read_annotations', '_pass_read_annotations2', '_pass3',
+                                                                   '_resolve', '_pass_type_resolution', '_pair_boxed_type'))
+        for e in gsa.find(S, 'store', r'^[\w.]+\[.*\]$'):
+            key = e.target[e.target.index('[') + 1:-1]
+            try:
+                kn = ast.parse(key, mode='eval').body
+            except SyntaxError:
+                continue
+            for c in ast.walk(kn):
+                if isinstance(c, ast.Call) and isinstance(c.func, ast.Name) and c.func.id in mt.imports and mt.imports[c.func.id][0] == 'utils':
+                    tgt, remote = mt.imports[c.func.id]
+                    pn = prefix_neutral(ctx, py.mod(tgt), remote)
+                    if pn is None:
+                        raise AnalysisError('%s: key function utils.%s could not be analysed' % (qual, remote))
+                    n += 1
+                    rule.check(pn, '%s: key %s' % (qual.split('.')[-1], key[:80]), mt.rel, e.line,
+                               '%s keys the lookup table with %s, and utils.%s treats a leading pair of capitals specially ("DBusError" -> "d_bus_error"): the key '
+                               'derived from the C symbol ("dbus_error") never matches and the error domain / method pairing is lost for acronym-style names' %
+                               (qual.split('.')[-1], key[:80], remote), detail=key)
+    if n < 2:
+        raise AnalysisError('name-derived lookup keys of MainTransformer not found (expected in transform and _pair_quarks_with_enums)')
 
 
 def printed_value_signedness(ctx, r2):
